@@ -201,8 +201,24 @@ where
     };
     let mut res: SmallVec<[_; N_NODES_ON_STACK]> = SmallVec::new();
     let mut cur_byte_offset = 0usize;
-    let mut close_additional_paren = false;
-    let mut open_paren_count = 0;
+    // For every binary operator in function call syntax whose second argument is currently
+    // being read, the number of parentheses that have been opened since its comma. The last
+    // element belongs to the innermost call.
+    let mut pending_calls: SmallVec<[i32; 8]> = SmallVec::new();
+    // Adds the additional closing parenthesis of every call whose second argument is complete.
+    fn close_finished_calls<'a, T: DataType>(
+        res: &mut SmallVec<[ParsedToken<'a, T>; N_NODES_ON_STACK]>,
+        pending_calls: &mut SmallVec<[i32; 8]>,
+    ) {
+        while pending_calls.last() == Some(&0) {
+            res.push(ParsedToken::Paren(Paren::Close));
+            pending_calls.pop();
+            // the parenthesis of the finished call has been counted by the enclosing call
+            if let Some(open_paren_count) = pending_calls.last_mut() {
+                *open_paren_count -= 1;
+            }
+        }
+    }
     for (i, c) in text.char_indices() {
         if c == ' ' && i == cur_byte_offset {
             cur_byte_offset += 1;
@@ -212,15 +228,16 @@ where
             if c == '(' {
                 cur_byte_offset += 1;
                 res.push(ParsedToken::<T>::Paren(Paren::Open));
-                open_paren_count += 1;
+                if let Some(open_paren_count) = pending_calls.last_mut() {
+                    *open_paren_count += 1;
+                }
             } else if c == ')' {
                 cur_byte_offset += 1;
-                open_paren_count -= 1;
-                res.push(ParsedToken::<T>::Paren(Paren::Close));
-                if close_additional_paren && open_paren_count == 0 {
-                    res.push(ParsedToken::Paren(Paren::Close));
-                    close_additional_paren = false;
+                if let Some(open_paren_count) = pending_calls.last_mut() {
+                    *open_paren_count -= 1;
                 }
+                res.push(ParsedToken::<T>::Paren(Paren::Close));
+                close_finished_calls(&mut res, &mut pending_calls);
             } else if c == ',' {
                 // this is for binary operators with function call syntax.
                 // we simply replace op(a,b) by ((a)op(b)) where the outer parens
@@ -231,8 +248,7 @@ where
                     exerr!("could not find operator for comma, could be operator with more than 2 args (not supported), missing operator, or paren mismatch",)
                 })?;
                 let op_at_comma = mem::replace(&mut res[op_idx], ParsedToken::Paren(Paren::Open));
-                close_additional_paren = true;
-                open_paren_count = 1;
+                pending_calls.push(1);
                 res.push(ParsedToken::Paren(Paren::Close));
                 res.push(op_at_comma);
                 res.push(ParsedToken::Paren(Paren::Open));
@@ -245,18 +261,12 @@ where
                 let var_name = &text_rest[1..n_count];
                 cur_byte_offset += n_count + 1;
                 res.push(ParsedToken::Var(var_name));
-                if close_additional_paren && open_paren_count == 0 {
-                    res.push(ParsedToken::Paren(Paren::Close));
-                    close_additional_paren = false;
-                }
+                close_finished_calls(&mut res, &mut pending_calls);
             } else if let Some(num_str) = is_numeric(text_rest) {
                 let n_bytes = num_str.len();
                 cur_byte_offset += n_bytes;
                 res.push(ParsedToken::<T>::Num(num_str.parse::<T>().map_err(to_ex)?));
-                if close_additional_paren && open_paren_count == 0 {
-                    res.push(ParsedToken::Paren(Paren::Close));
-                    close_additional_paren = false;
-                }
+                close_finished_calls(&mut res, &mut pending_calls);
             } else if let Some((idx, op)) = find_ops(cur_byte_offset_tmp) {
                 let n_bytes = op.repr().len();
                 cur_byte_offset += n_bytes;
@@ -269,10 +279,7 @@ where
                 let n_bytes = var_str.len();
                 cur_byte_offset += n_bytes;
                 res.push(ParsedToken::<T>::Var(var_str));
-                if close_additional_paren && open_paren_count == 0 {
-                    res.push(ParsedToken::Paren(Paren::Close));
-                    close_additional_paren = false;
-                }
+                close_finished_calls(&mut res, &mut pending_calls);
             } else {
                 return Err(exerr!("don't know how to parse {}", text_rest));
             }
